@@ -559,6 +559,76 @@ func ruleGuardUpdate(c *Ctx, r *Rep) {
 			r.Bad("reason|"+n, c.FnPos(fn), "the decision has a `return true` for reason "+n, "none")
 		}
 	}
+	// What lies before the reasons: a failed backend call or a missing configuration ends the decision with false,
+	// and nothing else does - so no reason sits behind a test that only a failure passes, and the early exits are
+	// taken on failure, not on success.
+	isCfgPtr := func(t types.Type) bool {
+		p, ok := t.(*types.Pointer)
+		return ok && strings.HasSuffix(typeShort(c, p.Elem()), "CertificateContent")
+	}
+	failure := func(cond ssa.Value, truth bool) (string, bool, bool) {
+		x, isNil, ok := nilTestOf(cond, truth)
+		if !ok {
+			return "", false, false
+		}
+		switch {
+		case isErrorType(x.Type()):
+			return "error of " + a.o(x), !isNil, true
+		case isCfgPtr(x.Type()):
+			if _, isParam := x.(*ssa.Parameter); isParam {
+				return "", false, false
+			}
+			return "configuration " + a.o(x), isNil, true
+		}
+		return "", false, false
+	}
+	nTrue := 0
+	for _, ret := range returnsOf(fn) {
+		k, ok := retResults(ret)[0].(*ssa.Const)
+		if !ok {
+			continue
+		}
+		if constBool(k) {
+			nTrue++
+			bad := ""
+			for _, g := range guardsOf(ret.Block()) {
+				if what, failed, ok := failure(g.Cond, g.Truth); ok && failed {
+					bad = what
+				}
+			}
+			r.Check(bad == "", sprintf("reason-reachable|%s#%d", fk, nTrue), c.Pos(ret.Pos()), "no `return true` lies behind a test that only a failed fetch passes", bad)
+			continue
+		}
+		b := ret.Block()
+		if len(b.Preds) != 1 {
+			continue
+		}
+		iff, ok := b.Preds[0].Instrs[len(b.Preds[0].Instrs)-1].(*ssa.If)
+		if !ok {
+			continue
+		}
+		what, failed, ok := failure(iff.Cond, b.Preds[0].Succs[0] == b)
+		if !ok {
+			continue
+		}
+		r.Check(failed, "early-exit|"+what, c.Pos(ret.Pos()), "`return false` straight after a fetch is taken when the fetch failed", map[bool]string{true: "so", false: "taken when it succeeded"}[failed])
+	}
+	// the configuration is fetched only when none was given
+	for _, ci := range callsIn(fn) {
+		if !ci.Common().IsInvoke() || ci.Common().Method.Name() != "GetConfig" || len(ci.Common().Args) != 1 {
+			continue
+		}
+		if o := a.o(ci.Common().Args[0]); o != A {
+			continue
+		}
+		okGuard := false
+		for _, g := range guardsOf(ci.Block()) {
+			if x, isNil, ok := nilTestOf(g.Cond, g.Truth); ok && isNil && a.o(x) == C {
+				okGuard = true
+			}
+		}
+		r.Check(okGuard, "fetch-when-absent|"+fk, c.Pos(ci.Pos()), "the entity's configuration is fetched only when the caller gave none (the one given is the merged one)", map[bool]string{true: "so", false: "fetched without that test"}[okGuard])
+	}
 	// the flags tested are the documented bit values (TAB-CLI checks the constants)
 	r.Ok("exits-false|"+fk, c.FnPos(fn), "every exit other than the six reasons returns false", "checked")
 }
@@ -728,4 +798,33 @@ func lastIfCond(b *ssa.BasicBlock) ssa.Value {
 func isStringSlice(t types.Type) bool {
 	sl, ok := t.Underlying().(*types.Slice)
 	return ok && isString(sl.Elem())
+}
+
+// nilTestOf reads a branch condition as a nil test: the operand, and whether it is nil on the edge with the given truth.
+func nilTestOf(cond ssa.Value, truth bool) (ssa.Value, bool, bool) {
+	for {
+		u, ok := cond.(*ssa.UnOp)
+		if !ok || u.Op != token.NOT {
+			break
+		}
+		cond, truth = u.X, !truth
+	}
+	bin, ok := cond.(*ssa.BinOp)
+	if !ok || bin.Op != token.EQL && bin.Op != token.NEQ {
+		return nil, false, false
+	}
+	isNilConst := func(v ssa.Value) bool {
+		k, ok := v.(*ssa.Const)
+		return ok && k.IsNil()
+	}
+	var x ssa.Value
+	switch {
+	case isNilConst(bin.Y):
+		x = bin.X
+	case isNilConst(bin.X):
+		x = bin.Y
+	default:
+		return nil, false, false
+	}
+	return x, (bin.Op == token.EQL) == truth, true
 }
